@@ -82,6 +82,8 @@ type Exec struct {
 	stableCache  []*ssa.Global
 	roInit       map[string]Term // reference (constant term) of a read-only package variable -> its initialiser
 	frameEvals, minRegionsAtFrame int
+	storeDefs    map[string][3]string // named heap term -> (array, index, value) of the store it names
+	roElems      map[string]map[int64]Term // read-only array globals: element terms by constant index
 	uremSeen     map[string]bool
 	topGhosts    map[string]Val // ghost variables / lets of the function under verification (visible in its loop invariants)
 	ifaceOrigin  map[string]ifaceOrg // interface term (as named by its MakeInterface) -> dynamic type and boxed value
